@@ -102,11 +102,13 @@ func (u *memoryManagementUnit) fetchCacheLine(addr int32) []int8 {
 }
 
 func (u *memoryManagementUnit) pushLineToL1D(addr comp.AlignedAddress, line []int8) {
-	evicted := u.l1d.PushLine(addr, line)
-	if len(evicted) == 0 {
+	evicted := u.l1d.PushLineWithEvictionWarning(addr, line)
+	if evicted == nil {
 		return
 	}
-	u.writeToMemory(addr, line)
+	// The displaced line is removed and written back to memory
+	u.l1d.EvictCacheLine(evicted.Boundary[0])
+	u.writeToMemory(evicted.Boundary[0], evicted.Data)
 }
 
 func (u *memoryManagementUnit) writeToL1D(addr int32, data []int8) {
